@@ -9,7 +9,7 @@
    only, sort options by the order-defined functions only, retain options by clean.py only. *)
 From mathcomp Require Import all_ssreflect all_algebra.
 From SsrMultinomials Require Import mpoly.
-From NP Require Import Base Poly Deriv Rearr Reduce Abs Expr OptIrrP GenOptRead BridgeOptRead.
+From NP Require Import Base Poly Deriv Rearr Reduce Abs Expr OptIrrP GenOptRead BridgeOptRead MulTotal.
 Set Implicit Arguments. Unset Strict Implicit. Unset Printing Implicit Defensive.
 Import GRing.Theory.
 Local Open Scope ring_scope.
@@ -33,6 +33,18 @@ Proof. exact: psub_opts_success. Qed.
 
 Theorem C15_neg_never_fails o a : wfb a -> exists r, pneg o a = Ok r.
 Proof. by move=> wa; apply: (pneg_opts_success o o). Qed.
+
+(* products, powers and every expression tree over + - neg * **: success does not depend on the options *)
+Theorem C15_product_never_fails o a b s :
+  wfb a -> wfb b -> bshape (shape a) (shape b) = Some s -> exists q, pmul o a b = Ok q.
+Proof. exact: pmul_total. Qed.
+
+Theorem C15_power_never_fails o a (k : nat) : wfb a -> exists q, ppow o a k = Ok q.
+Proof. exact: ppow_total. Qed.
+
+Theorem C15_expression_success o1 o2 (e : expr R) r1 :
+  leaves_wf e -> eval o1 e = Ok r1 -> exists r2, eval o2 e = Ok r2.
+Proof. exact: eval_opts_success. Qed.
 
 Theorem C15_retain_only_layout rc1 rn1 rc2 rn2 ns sh rs (cs : seq (seq R)) q1 q2 :
   from_attributes rc1 rn1 ns sh rs cs = Ok q1 -> from_attributes rc2 rn2 ns sh rs cs = Ok q2 ->
@@ -88,6 +100,9 @@ Print Assumptions C15_expression_value.
 Print Assumptions C15_add_never_fails_differently.
 Print Assumptions C15_sub_never_fails_differently.
 Print Assumptions C15_neg_never_fails.
+Print Assumptions C15_product_never_fails.
+Print Assumptions C15_power_never_fails.
+Print Assumptions C15_expression_success.
 Print Assumptions C15_retain_only_layout.
 Print Assumptions C15_sort_flags_unread.
 Print Assumptions C15_sort_flags_unread_expression.
